@@ -1,7 +1,7 @@
 """C19 - adjacent groups consume contiguous blocks only."""
 from vlib import *
 import defs as D, linegen, cmdline_sig
-from cmdline_check import run_cmdline_property, run_tree_groups, merge_cov
+from cmdline_check import run_cmdline_property, run_tree_groups, merge_cov, run_protocol_only
 
 
 def families(tier):
@@ -41,6 +41,8 @@ def run(v):
         return sig(m)
     cov = merge_cov(cov, run_tree_groups(v, SEED + 1980, 12 if q else 60, 4 if q else 5, 1500 if q else 12000, ("adj", "acmd"),
                                          tsig, ledger_every=3 if q else 1, driver_n=4000 if q else 100000), "tree_groups")
+    # beyond the acceptors: adjacent groups inside adjacent subcommands / inside choices - judged by the ledger protocol
+    cov.update(run_protocol_only(v, D.nested_adj_family(SEED + 193, 12), 6000 if q else 100000, "C19n"))
     cov["rule"] = ("group shapes {flag + 2..3 positionals, flag + two named arguments + optional switch} under one/opt/many among "
                    "0..2 other options and a trailing repeated positional; all lines up to maxlen: blocks at every position, "
                    "split by foreign items, cut short, `--`/help inside and next to blocks; AdjContiguous/CutKills checked by TLC; the same "
